@@ -1077,9 +1077,22 @@ impl<'ast, 'res> Resolver<'ast, 'res> {
                                 match builtin {
                                     MemberBuiltin::ProcessCommand(ProcessCommandBuiltin::Cwd)
                                     | MemberBuiltin::Array(ArrayBuiltin::Join)
-                                        if !args.args.is_empty() =>
+                                    | MemberBuiltin::String(
+                                        StringBuiltin::Find | StringBuiltin::Split,
+                                    ) if !args.args.is_empty() => {
+                                        self.expect_member_string_arg(field, args.args[0], *span);
+                                    }
+                                    MemberBuiltin::String(StringBuiltin::Replace)
+                                        if args.args.len() >= 2 =>
                                     {
                                         self.expect_member_string_arg(field, args.args[0], *span);
+                                        self.expect_member_string_arg(field, args.args[1], *span);
+                                    }
+                                    MemberBuiltin::String(StringBuiltin::Slice)
+                                        if args.args.len() >= 2 =>
+                                    {
+                                        self.expect_member_number_arg(field, args.args[0], *span);
+                                        self.expect_member_number_arg(field, args.args[1], *span);
                                     }
                                     MemberBuiltin::ProcessCommand(ProcessCommandBuiltin::Env)
                                         if args.args.len() >= 2 =>
